@@ -117,7 +117,14 @@ class PoolGen:
             self.obs()
             self.ops.append("gen")
         elif k < 0.95:
-            self.ops.append(f"evict cut={r.choice([self.group, max(0, self.group - 1), max(0, self.group - 3), 0])}")
+            if r.random() < 0.2:
+                # the age rule with a tolerance nothing can reach: "never" (the largest duration) or centuries (seeding round 28:
+                # arrival time + tolerance must not be computed in 64 bits)
+                tol = r.choice(["max", "250y"])
+                self.ops.append(f"evict cut=0 tol={tol}")
+                self.tags.add("evict:tolerance-" + tol)
+            else:
+                self.ops.append(f"evict cut={r.choice([self.group, max(0, self.group - 1), max(0, self.group - 3), 0])}")
             self.tags.add("evict")
         elif k < 0.98:
             self.ops.append(f"setseq {r.choice([0, 3, 9])}")
